@@ -38,6 +38,7 @@ def run(chk):
     events_not_dropped(chk, prog)
     slicing_controls(chk, prog, names, cg, fa)
     clock_advance(chk, prog, names, cg)
+    asset_adapters(chk, prog)
     return chk.finish(EXPL)
 
 
@@ -489,3 +490,159 @@ def event_bit(prog, EV, name):
         return c["v"]["fields"][0]["int"]
     except (KeyError, IndexError, TypeError):
         return None
+
+
+def asset_adapters(chk, prog):
+    """T-SIB: the asset implementations agree with each other (same bytes, same positions, whichever delivers a file).
+    The in-memory cursor is the reference: seek(Start(p)) -> p, seek(End(p)) -> len + p, seek(Current(p)) -> pos + p,
+    an error exactly when that is negative and then the position is kept.  The file adapter hands the position to the
+    OS unchanged (variant for variant, same offset) and reads into the caller's buffer; the gzip and dynamic adapters
+    forward read / seek to what they wrap exactly once with the caller's arguments and return its result."""
+    from zx.walk import Walker, Ref, Agg, EffectResult, SymObj, SymArr
+    chk.rule("T-SIB/assets", "BufferCursor::seek arithmetic per SeekFrom variant; into_std_seek_pos variant- and offset-preserving; File/Gzip/Dynamic adapters forward read/seek unchanged")
+    try:
+        SF = prog.adt_path("rustzx_core", "SeekFrom")
+        BCT = prog.adt_path("rustzx_core", "BufferCursor")
+    except Exception as e:
+        chk.undecided_("T-SIB/assets/anchor", "%s" % e)
+        return
+    vnames = [v["name"] for v in prog.adt(SF)["variants"]]
+    OFF, LEN, POS = tm.sym("off", 64), tm.sym("LEN", 64), tm.sym("bc.pos", 64)
+    Tp = ("param", "T", 0)
+    # ---- in-memory cursor
+    BCS = [p for p in prog.fns if p.startswith("<rustzx_core::") and "BufferCursor<" in p and p.endswith("SeekableAsset>::seek")]
+    if len(BCS) != 1:
+        chk.undecided_("T-SIB/assets/BufferCursor::seek/anchor", "%s" % BCS)
+    else:
+        pos_i = prog.field_index(BCT, "pos")
+        for vi, vn in enumerate(vnames):
+            w = Walker(prog)
+
+            def hook(w_, st, path, a, d, wh):
+                if path.endswith("::as_ref"):
+                    st.store[("h", "data")] = SymArr("data", ("int", 8, False, False), LEN)
+                    return EffectResult(Ref(("h", "data"), (), False, LEN), havoc=False)
+                return None
+            w.effect_hook = hook
+            st = w.new_state()
+            st.store[("h", "bc")] = w.materialise(SymObj("bc", ("adt", BCT, (Tp,))), st)
+            key = "T-SIB/assets/BufferCursor::seek/%s" % vn
+            try:
+                rs = w.run(prog.fn(BCS[0]), [Ref(("h", "bc"), (), True), Agg(("adt", SF), vi, [OFF])], genv={"T": Tp}, state=st)
+            except Exception as e:
+                chk.undecided_(key, "could not explore: %s" % e)
+                continue
+            want = {"Start": OFF, "End": tm.binop("add", LEN, OFF), "Current": tm.binop("add", POS, OFF)}.get(vn)
+            if want is None:
+                chk.undecided_(key, "unknown SeekFrom variant %s" % vn)
+                continue
+            kinds = set()
+            for r in rs:
+                if r.outcome != "return" or not isinstance(r.ret, Agg):
+                    chk.fail(key + "/paths", "%s %s" % (r.outcome, r.detail))
+                    continue
+                neg = cc_dec(r, tm.cmp("slt", want, K(0, 64)))
+                p2 = r.store[("h", "bc")].fields[pos_i]
+                if r.ret.variant == 0:
+                    ok = neg is False and isinstance(p2, T) and tm.equiv(p2, want) is True and isinstance(r.ret.fields[0], T) and tm.equiv(r.ret.fields[0], want) is True
+                    chk.check(ok, key, "seek(%s(off)) succeeds with position %s / result %s where the target %s is negative: %s; documented: position = result = %s" % (
+                        vn, tm.show(p2) if isinstance(p2, T) else p2, r.ret.fields[0], tm.show(want), neg, tm.show(want)))
+                    kinds.add("ok")
+                else:
+                    chk.check(neg is True and p2 is POS, key + "/error", "seek(%s(off)) fails although the target is not negative, or moves the position on failure" % vn)
+                    kinds.add("err")
+                chk.count("asset-adapter-paths")
+            chk.check(kinds == {"ok", "err"}, key + "/cases", "cases %s" % sorted(kinds))
+    # ---- OS position
+    try:
+        ISP = prog.fn_path("rustzx_utils", "into_std_seek_pos")
+    except Exception:
+        ISP = None
+    std_names = [v["name"] for v in prog.adt("std::io::SeekFrom")["variants"]] if "std::io::SeekFrom" in prog.adts else ["Start", "End", "Current"]
+
+    def same_pos(v, vi):
+        return isinstance(v, Agg) and v.kind == ("adt", "std::io::SeekFrom") and v.variant < len(std_names) and std_names[v.variant] == vnames[vi] and \
+            len(v.fields) == 1 and isinstance(v.fields[0], T) and (v.fields[0] is OFF or tm.equiv(v.fields[0], OFF) is True)
+    FILE_SEEK = [p for p in prog.fns if p.startswith("<rustzx_utils::") and "FileAsset" in p and p.endswith("SeekableAsset>::seek")]
+    FILE_READ = [p for p in prog.fns if p.startswith("<rustzx_utils::") and "FileAsset" in p and p.endswith("LoadableAsset>::read")]
+    fwd = []
+    for name in ("GzipAsset", "DynamicAsset"):
+        for m in ("SeekableAsset>::seek", "LoadableAsset>::read"):
+            fwd.append((name, m, [p for p in prog.fns if p.startswith("<rustzx_utils::") and name in p and p.endswith(m)]))
+
+    def explore(path, adt, arg):
+        w = Walker(prog)
+        w.effect_hook = lambda w_, st, cp, a, d, wh: EffectResult(None, havoc=False)
+        for q in prog.fns:
+            if "BufferCursor<" in q:
+                w.opaque_paths.add(q)
+        st = w.new_state()
+        st.store[("h", "as")] = w.materialise(SymObj("as", ("adt", adt, ())), st)
+        st.store[("h", "buf")] = SymArr("buf", ("int", 8, False, False), tm.sym("BUFLEN", 64))
+        a = Ref(("h", "buf"), (), True, tm.sym("BUFLEN", 64)) if arg == "buf" else arg
+        return w.run(prog.fn(path), [Ref(("h", "as"), (), True), a], genv={}, state=st)
+    if len(FILE_SEEK) == 1 and len(FILE_READ) == 1:
+        FA = prog.adt_path("rustzx_utils", "FileAsset")
+        for vi, vn in enumerate(vnames):
+            key = "T-SIB/assets/FileAsset::seek/%s" % vn
+            try:
+                rs = explore(FILE_SEEK[0], FA, Agg(("adt", SF), vi, [OFF]))
+            except Exception as e:
+                chk.undecided_(key, "could not explore: %s" % e)
+                continue
+            for r in rs:
+                sk = [e for e in r.trace if e.path.endswith("std::io::Seek>::seek")]
+                chk.check(r.outcome == "return" and len(sk) == 1 and same_pos(sk[0].args[1], vi), key,
+                          "seek(%s(off)) on a file asset asks the OS for %s; the in-memory asset moves to %s(off)" % (vn, [e.args[1:] for e in sk], vn))
+                chk.count("asset-adapter-paths")
+        key = "T-SIB/assets/FileAsset::read"
+        try:
+            for r in explore(FILE_READ[0], FA, "buf"):
+                rd = [e for e in r.trace if e.path.endswith("std::io::Read>::read")]
+                ok = r.outcome == "return" and len(rd) == 1 and isinstance(rd[0].args[1], Ref) and rd[0].args[1].obj == ("h", "buf") and rd[0].args[1].proj == ()
+                chk.check(ok, key, "read on a file asset does not read once into the caller's whole buffer: %s" % [e.args[1:] for e in rd])
+                chk.count("asset-adapter-paths")
+        except Exception as e:
+            chk.undecided_(key, "could not explore: %s" % e)
+    else:
+        chk.undecided_("T-SIB/assets/FileAsset/anchor", "seek %s read %s" % (FILE_SEEK, FILE_READ))
+    for name, m, paths in fwd:
+        short = m.split("::")[-1]
+        key = "T-SIB/assets/%s::%s" % (name, short)
+        if len(paths) != 1:
+            chk.undecided_(key + "/anchor", "%s" % paths)
+            continue
+        A = prog.adt_path("rustzx_utils", name)
+        cases = [(vi, Agg(("adt", SF), vi, [OFF])) for vi in range(len(vnames))] if short == "seek" else [(None, "buf")]
+        for vi, arg in cases:
+            try:
+                rs = explore(paths[0], A, arg)
+            except Exception as e:
+                chk.undecided_(key, "could not explore: %s" % e)
+                continue
+            for r in rs:
+                calls = [e for e in r.trace if e.path.endswith("::" + short) and ("Asset" in e.path)]
+                ok = r.outcome == "return" and len(calls) == 1 and len(r.trace) == 1
+                if ok and short == "seek":
+                    a1 = calls[0].args[1]
+                    ok = isinstance(a1, Agg) and a1.kind == ("adt", SF) and a1.variant == vi and a1.fields[0] is OFF
+                elif ok:
+                    a1 = calls[0].args[1]
+                    ok = isinstance(a1, Ref) and a1.obj == ("h", "buf") and a1.proj == ()
+                ok = ok and isinstance(r.ret, SymObj) and r.ret.name.startswith("ret0:")
+                chk.check(ok, key, "%s::%s does not forward the call once with the caller's argument and return its result: calls %s, result %s" % (
+                    name, short, [(e.path.split("::")[-1], e.args[1:]) for e in r.trace], r.ret))
+                chk.count("asset-adapter-paths")
+    if ISP is not None:
+        for vi, vn in enumerate(vnames):
+            w = Walker(prog)
+            rs = w.run(prog.fn(ISP), [Agg(("adt", SF), vi, [OFF])], genv={})
+            chk.check(len(rs) == 1 and rs[0].outcome == "return" and same_pos(rs[0].ret, vi), "T-SIB/assets/into_std_seek_pos/%s" % vn,
+                      "%s(off) becomes %s for the OS" % (vn, rs[0].ret if rs else None))
+            chk.count("asset-adapter-paths")
+    chk.floor("asset-adapter-paths", 20)
+
+
+def cc_dec(r, t):
+    from .c04 import cc_decide
+    return cc_decide(r, t)
